@@ -411,15 +411,15 @@ Proof.
   destruct (C01_chain_from_empty_with_compact exP 1 ex_ops exP_ok) as (A & B & C & D & E & _).
   - apply ops_valid'_b_ok. vm_compute. reflexivity.
   - apply rooms'_b_ok. vm_compute. reflexivity.
-  - repeat split; assumption.
+  - exact (conj A (conj B (conj C (conj D E)))).
 Qed.
 
 (* what the run returns: the compactions do real work (segments removed, records reclaimed), and the
    chain index still has its overflow bucket *)
 Example ex_outputs :
   skipn 40 (run' (step_chain' exP) sp0 ex_ops) =
-    [OOk; OOk; OCompact 7 3 39; OVal None; OVal (Some (val_of 50)); OVal (Some (val_of 32)); ONum 39;
-     OOk; OOk; OCompact 7 2 26; OOk; OVal (Some (val_of 41)); OBool false; ONum 39; OCompact 7 1 10].
+    [OOk; OOk; OCompact 7 3 37; OVal None; OVal (Some (val_of 50)); OVal (Some (val_of 32)); ONum 39;
+     OOk; OOk; OCompact 7 2 24; OOk; OVal (Some (val_of 41)); OBool false; ONum 39; OCompact 7 0 0].
 Proof. vm_compute. reflexivity. Qed.
 
 Example ex_final_shape :
@@ -427,3 +427,19 @@ Example ex_final_shape :
   length (d_segs (s_disk (final' (step_chain' exP) sp0 ex_ops))) = 7%nat.
 Proof. split; vm_compute; reflexivity. Qed.
 End RunEx.
+
+(* ================================================================================================ *)
+Print Assumptions cinv_of_CInv.
+Print Assumptions chain_compact_ok.
+Print Assumptions flat_put_MetaOK.
+Print Assumptions flat_delete_MetaOK.
+Print Assumptions step_sim.
+Print Assumptions step_refines'.
+Print Assumptions run_refines'.
+Print Assumptions C01_chain_refines_map_with_compact.
+Print Assumptions flat_init_MetaOK.
+Print Assumptions C01_chain_from_empty_with_compact.
+Print Assumptions rooms'_b_ok.
+Print Assumptions RunEx.ex_run.
+Print Assumptions RunEx.ex_outputs.
+Print Assumptions RunEx.ex_final_shape.
